@@ -108,6 +108,10 @@ func genSchemas(rng *RNG, o irOpts) (ast.Schemas, map[string]int) {
 		// a discriminated family per package (sometimes)
 		if o.Unions && rng.Chance(0.6) {
 			fam := []string{"Circle", "Square", "Tri"}
+			if rng.Chance(0.3) {
+				// object names that are not already UpperCamelCase
+				fam = []string{"circle_shape", "squareShape", "tri_Angle"}
+			}
 			if o.UniqueNames {
 				for fi := range fam {
 					fam[fi] = fam[fi] + strings.ToUpper(pkg[len(pkg)-1:])
